@@ -18,29 +18,30 @@ import (
 // ---- shared helpers for the SCHED engine (C20, C08-S3) ----
 
 type schedOut struct {
-	Mode        string              `json:"mode"`
-	Seed        uint64              `json:"seed"`
-	Run         uint64              `json:"run"`
-	Tape        []uint32            `json:"tape"`
-	Tasks       int                 `json:"tasks"`
-	Yields      uint32              `json:"yields"`
-	Switches    []map[string]uint32 `json:"switches"`
-	SchedHash   string              `json:"sched_hash"`
-	Races       []vcRace            `json:"vc_races"`
-	Ops         int                 `json:"symtab_ops"`
-	OpsList     []symOp             `json:"ops"`
-	Deadlock    bool                `json:"deadlock"`
-	SiteHits    map[string]uint32   `json:"site_hits"`
-	AfterWrite  uint32              `json:"switch_after_table_write"`
-	Panics      []string            `json:"panics"`
-	Isolation   []string            `json:"isolation_mismatches"`
-	Programs    []string            `json:"programs"`
-	Fingerprint string              `json:"fingerprint"`
-	Probes      []string            `json:"probes"`
-	RaceBuild   bool                `json:"race_build"`
-	Ties        int                 `json:"maporder_ties"`
-	SwitchPerK  uint32              `json:"switch_per_k"`
-	EvalPerK    uint32              `json:"eval_per_k"`
+	Mode          string              `json:"mode"`
+	Seed          uint64              `json:"seed"`
+	Run           uint64              `json:"run"`
+	Tape          []uint32            `json:"tape"`
+	Tasks         int                 `json:"tasks"`
+	Yields        uint32              `json:"yields"`
+	Switches      []map[string]uint32 `json:"switches"`
+	SchedHash     string              `json:"sched_hash"`
+	Races         []vcRace            `json:"vc_races"`
+	Ops           int                 `json:"symtab_ops"`
+	OpsList       []symOp             `json:"ops"`
+	Deadlock      bool                `json:"deadlock"`
+	SiteHits      map[string]uint32   `json:"site_hits"`
+	AfterWrite    uint32              `json:"switch_after_table_write"`
+	Panics        []string            `json:"panics"`
+	Isolation     []string            `json:"isolation_mismatches"`
+	Programs      []string            `json:"programs"`
+	Fingerprint   string              `json:"fingerprint"`
+	Probes        []string            `json:"probes"`
+	RaceBuild     bool                `json:"race_build"`
+	Ties          int                 `json:"maporder_ties"`
+	FreeformLines int                 `json:"freeform_lines"`
+	SwitchPerK    uint32              `json:"switch_per_k"`
+	EvalPerK      uint32              `json:"eval_per_k"`
 }
 
 type vcRace struct {
